@@ -263,7 +263,17 @@ fn cmd_run(args: &[String]) -> i32 {
                 let seed = mix(base_seed, i);
                 let profile = profile_for(i);
                 let t0 = Instant::now();
-                let r = explore_one(&env, &mut oracle, &params, seed, profile, &mut stats);
+                // a panic of the harness itself must never pass silently (panics of the library
+                // inside the oracle are caught there)
+                let r = match std::panic::catch_unwind(std::panic::AssertUnwindSafe(|| explore_one(&env, &mut oracle, &params, seed, profile, &mut stats))) {
+                    Ok(r) => r,
+                    Err(p) => {
+                        let msg = p.downcast_ref::<String>().cloned().or_else(|| p.downcast_ref::<&str>().map(|s| s.to_string())).unwrap_or_default();
+                        stats.harness_errors.push(format!("seed {} (profile {}): the harness panicked: {}", seed, profile, msg));
+                        oracle = Oracle::new();
+                        continue;
+                    }
+                };
                 if std::env::var_os("VSIM_SLOW").is_some() && t0.elapsed().as_millis() > 300 {
                     eprintln!("slow case: index {} seed {} profile {}: {} ms", i, seed, profile, t0.elapsed().as_millis());
                 }
